@@ -287,7 +287,9 @@ def check(prop, tier, seed, jobs, worlds=None, wall=None, keep=False):
         d, v = items[0]
         case = d.get("case")
         if case is None:
-            case = pobj.gen(random.Random(subseed(seed, prop, d["world"])), tier)
+            rng_ = random.Random(subseed(seed, prop, d["world"]))
+            rng_.world_index = d["world"]
+            case = pobj.gen(rng_, tier)
         rp = {"property": prop, "clause": clause, "signature": sig, "detail": v["detail"], "violation": v,
               "seed": seed, "world": d["world"], "tier": tier, "hash_seed": d["hash_seed"], "case": case,
               "occurrences_this_run": len(items), "repo": repo_state(), "minimised": None}
